@@ -28,7 +28,7 @@ ASSUMPTIONS = [
 MANIFEST = {
     "level": LEVEL,
     "technique": "deterministic simulation: seeded worklist scheduler (8 policies) over generated and builder-produced CFGs, each analysed under several schedules and compared with a path-based reference model",
-    "text": "Seeded search over (CFG, worklist schedule) pairs: generated graphs (2-9 blocks, <=4 variables, dummy edges, unreachable blocks and cycles, borrowed variables) and CFGs built by the real CFGBuilder from generated function bodies; every CFG is analysed under K scheduler policies through the guarded hook and live/def/maybe key sets must equal each other and an independent reachability-based reference; pops are bounded. Sampling, not proof.",
+    "text": "Seeded search over (CFG, worklist schedule) pairs: generated graphs (2-9 blocks, <=4 variables, dummy edges, unreachable blocks and cycles, borrowed variables) and CFGs built by the real CFGBuilder from generated function bodies; (incl. the CFGs of nested function bodies and modifier blocks, comprehensions whose variables shadow outer names, walrus, with-blocks); every CFG is analysed under K scheduler policies through the guarded hook and live/def/maybe key sets must equal each other and an independent reachability-based reference; for builder-produced CFGs the per-block use/assign sets that feed the reference are derived by an independent statement walker and the real VariableVisitor must agree with them; pops are bounded. Sampling, not proof.",
     "note": "Trusted: the path-based reference (reachability over real+dummy edges, ~80 lines), the graph generator's own use/assign bookkeeping, the independent statement walker that derives use/assign sets for builder-produced CFGs (c09_stats.py, ~100 lines), the scheduler seam, the compat shim.",
     "design_ref": "DESIGN.md section 3 (C09), section 5 (hook)",
 }
